@@ -357,8 +357,22 @@ class Sim:
             self.cur = t0
             t0._real_start()
             t0.wake.release()
-            if not self.done_evt.wait(self.wall_limit):
-                self.outcome = ('wall-timeout', self._blocked_info())
+            # the wall-clock guard: a thread that keeps the baton without
+            # ever reaching a scheduling point (an endless loop, a real
+            # system call that never returns).  A run that is merely slow
+            # (a loaded machine) still takes steps and is given more time;
+            # the step limit bounds it.
+            waited, half = 0.0, self.wall_limit / 2.0
+            while not self.done_evt.wait(half):
+                waited += half
+                before = self.steps
+                if self.done_evt.wait(half):
+                    break
+                waited += half
+                if self.steps == before or \
+                        waited >= 8 * self.wall_limit:
+                    self.outcome = ('wall-timeout', self._blocked_info())
+                    break
             self.killed = True
             for thr in self.threads:
                 if thr.state != 'D':
